@@ -69,7 +69,15 @@ RULE = ('one case = one complete schedule of the real Rmcp shared by 2..4 real t
         'must end in an error and release the lock) - and a quarter of the random configurations carry max_retries 1..2 '
         'and a random loss plan; judged by the same Lean monitor (session sequence numbers strictly increasing over the '
         'whole wire log, retransmissions included; a call returns its own reply, or an error after a time-out on its '
-        'own datagram) and validated against the Lean model with the same retry budget and loss plan.  '
+        'own datagram) and validated against the Lean model with the same retry budget and loss plan.  Lock hand-off sweep '
+        '(part of that stream): 7 configurations (2..3 threads, the keep-alive and Close Session among them) x max_retries '
+        '1..2 x the reply to the k-th datagram lost (k = 0..number of calls; max_retries 2: also k and k+1) x a FAIR lock '
+        '(every other thread queued on the lock before its holder goes on; a free lock goes to the longest waiter, never '
+        'back to the thread that has just released it) | a preemption right after every release() x each thread going '
+        'first.  Every schedule of every stream is also judged by clause (W) of the Lean monitor '
+        '(Spec.Threads.wholeExchanges, on the datagrams each call of the real _send_and_receive transmitted between entry '
+        'and return): the exchange of the property is the whole call - request, retransmissions, reply - so the datagrams '
+        'of one call must be consecutive datagrams of the log (signature C14:exchanges-interleaved:retransmission).  '
         'Different-targets stream (always on): application threads that address DIFFERENT targets on the one interface - '
         'another IPMB address un-bridged (82h, 72h), a node behind one bridge (82h through the BMC, one Send Message '
         'envelope) or two (72h, two envelopes) - next to each other, to the keep-alive and to Close Session, which address '
@@ -103,6 +111,13 @@ ASSUMPTIONS = [
     'one reply by one exchange and is judged on the real code only (the Lean model has no delayed replies: what it '
     'proves for that case is rq_seq_distinct_on_wire / late_reply_cannot_match - the late reply cannot carry the '
     'number of the request it would be mistaken for); duplication and other stale frames belong to C04',
+    'clause (W) (a retransmission belongs to the exchange it repeats) is judged on the real code only, from the '
+    'datagrams the harness saw each call hand to the socket between entry and return of the real _send_and_receive; the '
+    'Lean model does not record datagrams per call: what it proves is mutual_exclusion with the whole retry loop inside '
+    'the lock block, whole_exchange_owned_by_its_caller says what (W) means on any log, and that the source never '
+    'releases the lock inside the block is read by the translator (Shape.lockOpsElsewhere = 0: no mention of '
+    'transaction_lock in class Rmcp but its assignment and the with statement; Shape.retryLoop: the time-out handler is '
+    '`retry += 1` and nothing else) - the variant that does (Props.C14.stepR) has release_in_retry_handler_counterexample',
     'lost replies: the model\'s network either answers a datagram at once or never (loss plan = set of datagram '
     'numbers whose reply is lost; the theorems quantify over every plan and every max_retries); a lost REQUEST is '
     'not distinguished from a lost reply (the console cannot tell them apart: same time-out, same retransmission); '
@@ -134,7 +149,7 @@ ASSUMPTIONS = [
     'code only, so "the reply the closing thread was handed" is identified by the datagram whose reply that thread '
     'took from the socket last, not by the payload',
 ]
-TRUSTED = ['harness/translate/threads.py', 'harness/sim/sched.py (scheduler, Lock/Event/Thread stand-ins)',
+TRUSTED = ['harness/translate/threads.py', 'harness/sim/sched.py (scheduler, Lock/Event/Thread stand-ins, HandOffPolicy)',
            'harness/props/c14.py (fake socket, reference BMC, access wrappers)']
 
 PASSWORD = b'secret'
@@ -773,6 +788,19 @@ def judge(ctx, cfg, out, drv, model=True, choices=None):
                     'after Close Session)',
                     observed={'monitor': verdict, 'wire': out.wire, 'results': rtoks, 'lost_replies': out.lost,
                               'errors': [r[3] for r in out.results if r[3]], 'thread_exceptions': out.exc})
+    elif _whole_verdict(drv, out) != '1':
+        # clause (W): the exchange of the property is the whole call - the request, its retransmissions and the reply
+        # that ends it.  (X) holds datagram by datagram, yet another thread's exchange lies between a request and its
+        # retransmission
+        sig = 'C14:exchanges-interleaved:retransmission'
+        sigs.append(sig)
+        ctx.violate(sig, 'request/reply exchanges of different threads are interleaved on the socket: %s' % '; '.join(
+            _whole_breaks(cfg, out)), case,
+            expected='Spec.Threads.wholeExchanges (W: the datagrams of one call - request and retransmissions - are '
+                     'consecutive datagrams of the wire log, all sent by the calling thread)',
+            observed={'monitor': 'X S O C hold datagram by datagram; W=%s' % _whole_verdict(drv, out), 'wire': out.wire,
+                      'calls': _call_tokens(out.results), 'results': rtoks, 'lost_replies': out.lost,
+                      'max_retries': cfg.get('mr', 0)})
     elif not ((_expected_calls(cfg)[0] if not _ka_failed(cfg, out) else
                _expected_calls(cfg)[1] - cfg['ka'] + 1) <= len(out.results) <= _expected_calls(cfg)[1]):
         sigs.append('C14:call-count')
@@ -809,6 +837,37 @@ def judge(ctx, cfg, out, drv, model=True, choices=None):
                 d['explained_by'] = sigs[0]
             ctx.disagreements.append(d)
     return sigs
+
+
+def _call_tokens(results):
+    """tid:serial,serial,… per finished call that transmitted something: EVERY datagram of the call, in order (what
+    the wrapper around the real `_send_and_receive` saw the calling thread hand to the socket between entry and return)"""
+    return ['%d:%s' % (tid, ','.join(str(x) for x in sent)) for tid, sent, _, _ in results if sent]
+
+
+def _whole_verdict(drv, out):
+    """clause (W) of the Lean monitor on the real wire log and the real calls -> '1' | '0'"""
+    calls = _call_tokens(out.results)
+    if not any(',' in c for c in calls):
+        return '1'      # no call transmitted twice: (W) says nothing beyond (X) and (O)
+    return drv.ask('whole %s | %s' % (' '.join(out.wire), ' '.join(calls)))
+
+
+def _whole_breaks(cfg, out):
+    """words for a broken clause (W): what lies between a request and its retransmission"""
+    msgs = []
+    ka = len(cfg['workers'])
+    name = lambda t: 'thread %d%s' % (t, ' (the keep-alive)' if cfg['ka'] and t == ka else '')  # noqa
+    for tid, sent, _, _ in out.results:
+        for a, b in zip(sent, sent[1:]):
+            if b != a + 1:
+                between = [w for w in out.wire if w[0] == 'T' and a < int(w.split(':')[2]) < b]
+                who = sorted(set(int(w.split(':')[1]) for w in between))
+                msgs.append('%s sent datagram %d, timed out (Rmcp(max_retries=%d)) and retransmitted it as datagram %d; '
+                            'in between %s ran %d complete exchange(s) on the socket (datagram(s) %s)' % (
+                                name(tid), a, cfg.get('mr', 0), b, ', '.join(name(t) for t in who), len(between),
+                                ', '.join(w.split(':')[2] for w in between)))
+    return msgs or ['the datagrams of one call are not consecutive datagrams of its thread']
 
 
 def _after_close(wire):
@@ -1280,6 +1339,54 @@ RETRY_CFGS = [
 ]
 
 
+# (workers, keep-alive ticks, closing worker): 2..3 threads, the keep-alive and Close Session among them
+HANDOFF_CFGS = [
+    ([(1, 1), (1, 1)], 0, None),
+    ([(1, 1)], 1, None),
+    ([(2, 1), (1, 4)], 0, None),
+    ([(1, 1), (1, 1)], 1, None),
+    ([(1, 1), (1, 1), (1, 1)], 0, None),
+    ([(1, 4)], 1, 0),                      # the closing thread: Close Session may be the retransmitted request
+    ([(2, 1)], 2, None),
+]
+
+
+def _handoff_sweep(ctx, drv, st, t_end):
+    """What the LOCK does at a release, crossed with the retransmissions: every configuration of HANDOFF_CFGS x
+    max_retries 1..2 x the reply to the k-th datagram of the run lost (k = 0 .. number of calls; max_retries = 2: also
+    k and k+1, two time-outs in a row within the budget) under (a) a FAIR lock - every other thread is queued on the
+    lock before its holder goes on, and a free lock goes to the longest waiter, never back to the thread that has just
+    released it - starting with each thread in turn, and (b) a preemption right after every release().  A release
+    inside the exchange (between a time-out and the retransmission, say) hands the socket to a waiter there.  With two
+    losses in a row also: the first hand-off passed over, the second taken."""
+    import time
+    n = 0
+    auths = ['none', 'md5', 'password']
+    hand = {'fair': 0, 'preempt': 0}
+    for i, (workers, ka, closer) in enumerate(HANDOFF_CFGS):
+        total = sum(c for c, _ in workers) + ka + (1 if closer is not None else 0)
+        nthr = len(workers) + (1 if ka else 0)
+        for mr in (1, 2):
+            plans = [[k] for k in range(total + 1)]
+            if mr == 2:
+                plans += [[k, k + 1] for k in range(total)]
+            for j, lose in enumerate(plans):
+                for mode, skip in (('fair', 0), ('preempt', 0)) + ((('fair', 1), ('preempt', 1)) if len(lose) > 1 else ()):
+                    for first in range(nthr):
+                        if time.time() > t_end + 4:
+                            ctx.notes.append('hand-off sweep cut short (time budget)')
+                            ctx.extra['handoff_sweep'] = dict(hand, schedules=n, complete=False)
+                            return n
+                        cfg = _cfg(workers, ka, auths[(i + j) % 3], ss0=0xfffffffd if (i + j) % 5 == 4 else 0x90 + 8 * i + j,
+                                   ns0=[6, 62, 63][(i + j) % 3], gran='sync', closer=closer, mr=mr, lose=lose)
+                        _one(ctx, drv, cfg, S.HandOffPolicy(mode, first=first, skip=skip), st)
+                        ctx.count('lock-hand-off:%s' % mode)
+                        hand[mode] += 1
+                        n += 1
+    ctx.extra['handoff_sweep'] = dict(hand, schedules=n, complete=True)
+    return n
+
+
 def _retry_stream(ctx, drv, budget_s):
     """Rmcp(max_retries >= 1) behind a network that loses replies: the real retry loop (time-out, pack again, transmit
     again, all inside one lock hold) of application threads, the keep-alive and Close Session, under the scheduler.
@@ -1301,6 +1408,7 @@ def _retry_stream(ctx, drv, budget_s):
                                ns0=[4, 62, 63][k % 3], gran='sync', closer=closer, mr=mr, lose=[k] if mr == 1 else [k, k + 1])
                     _one(ctx, drv, cfg, S.ReplayPolicy([]), st)
                     n += 1
+        n += _handoff_sweep(ctx, drv, st, t_end)
         for i, row in enumerate(RETRY_CFGS):
             bound = row[6] if ctx.tier == 'quick' else row[7]
             if bound is None or time.time() > t_end:
@@ -1464,6 +1572,6 @@ def replay(ctx, v):
     for x in q.violations:
         print('VIOLATED: %s  [%s]' % (x['what'], x['observed'].get('monitor') if isinstance(x['observed'], dict) else x['observed']))
     if not q.violations:
-        print('Spec.Threads.accepts: ok' if cfg.get('late') is None else
+        print('Spec.Threads.accepts and wholeExchanges (calls %s): ok' % ' '.join(_call_tokens(out.results)) if cfg.get('late') is None else
               'no call returned a reply to a datagram its caller did not send (errors: %s)' % [r[3] for r in out.results if r[3]])
     return bool(sigs)
